@@ -95,6 +95,9 @@ structure S where
   /-- goroutines started by `Host.NotifyComponentStatusChange` that wait to hand a component's FatalError over on
   `asyncErrorChannel` (repaired host: they give up when their service is shut down) -/
   nFatal : Nat := 0
+  /-- hand-over goroutines of services that have been shut down: each gives up as soon as it runs again (`Label.giveUp`);
+  until then — a few scheduler quanta on the real code — its send can still be taken by the select -/
+  nStale : Nat := 0
   ctxDone : Bool := false
   /-- number of `setupConfigurationComponents` executions begun = generation of the configuration -/
   gen : Nat := 0
@@ -127,6 +130,7 @@ inductive Label
   | post (e : Ev)
   | cancel
   | fatal                 -- a component reports StatusFatalError through its host (any goroutine, any moment)
+  | giveUp                -- a hand-over goroutine of a retired service sees `host.Done` closed and exits
   | begin                 -- Run is called
   | step (ok : Bool)      -- the Run goroutine executes its next statement; `ok` = outcome if it can fail
   | pick (e : Ev)         -- the select receives on a ready branch
@@ -138,11 +142,12 @@ def S.emit (s : S) (e : TEv) : S := { s with log := s.log ++ [e] }
 component shutdowns): `Service.Shutdown` shuts every component of the service down exactly once even when some of those
 shutdowns fail and it returns an error — hence the generation leaves `live` whatever the outcome `ok` of the step that
 calls this. On the real collector the component-level log is judged by the monitor, which does not take this for granted.
-Pending fatal-error hand-overs of the service are abandoned (`nFatal := 0`, repaired host). That the call RETURNS is an
+Pending fatal-error hand-overs of the service become stale (`nStale`, repaired host: `host.Done` is closed, each gives up
+when it next runs). That the call RETURNS is an
 assumption of the model (see `stepRun`). -/
 def svcShutdown (s : S) : S :=
   match s.svc with
-  | some g => S.emit { s with live := s.live.erase g, sdLog := s.sdLog ++ [g], nFatal := 0 } (.shut g 0)
+  | some g => S.emit { s with live := s.live.erase g, sdLog := s.sdLog ++ [g], nFatal := 0, nStale := s.nStale + s.nFatal } (.shut g 0)
   | none => { s with panic := true }
 
 def failSetup (s : S) (rl : Bool) : S :=
@@ -191,8 +196,9 @@ def pickEv (s : S) : Ev → Option S
   | .term => if s.nTerm > 0 then some (leave { s with nTerm := s.nTerm - 1 } .term) else none
   -- one blocked sender is received: a direct one if there is any, else a component's fatal-error hand-over
   | .async =>
-    if s.nAsync > 0 ∨ s.nFatal > 0 then
-      some (leave { s with nAsync := s.nAsync - 1, nFatal := if s.nAsync > 0 then s.nFatal else s.nFatal - 1 } .async)
+    if s.nAsync > 0 ∨ s.nFatal > 0 ∨ s.nStale > 0 then
+      some (leave { s with nAsync := s.nAsync - 1, nFatal := if s.nAsync > 0 then s.nFatal else s.nFatal - 1,
+                           nStale := if s.nAsync > 0 ∨ s.nFatal > 0 then s.nStale else s.nStale - 1 } .async)
     else none
   | .shutdown => if s.chanClosed then some (leave s .shutdown) else none
   | .ctx => if s.ctxDone then some (leave s .ctx) else none
@@ -230,6 +236,7 @@ def fire (v : Variant) (s : S) : Label → Option S
   | .post e => postEv s e
   | .cancel => some { s with ctxDone := true }
   | .fatal => some { s with nFatal := s.nFatal + 1 }
+  | .giveUp => if s.nStale > 0 then some { s with nStale := s.nStale - 1 } else none
   | .begin => if s.pc = .idle then some { s with pc := .setup1 false } else none
   | .step ok => stepRun s ok
   | .pick e => if s.pc = .select then pickEv s e else none
@@ -244,7 +251,7 @@ def Reachable (v : Variant) (s : S) : Prop := ∃ ls, run v ls = some s
 
 /-- is some branch of the select ready? -/
 def S.anyReady (s : S) : Bool :=
-  s.nWatchOk > 0 || s.nWatchErr > 0 || s.nHup > 0 || s.nTerm > 0 || s.nAsync > 0 || s.chanClosed || s.ctxDone || s.nFatal > 0
+  s.nWatchOk > 0 || s.nWatchErr > 0 || s.nHup > 0 || s.nTerm > 0 || s.nAsync > 0 || s.chanClosed || s.ctxDone || s.nFatal > 0 || s.nStale > 0
 
 /-! ## trace monitor (table-independent statement of the property on an event log) -/
 
